@@ -9,14 +9,23 @@
 (*   "aberrated_scalar0", "aberrated_list0_n" (n = 1..4)  zero aberration  *)
 (*   "lens_mie_1", "lens_mie_15", "lens_mie_2"  numerical wrapper with a   *)
 (*        quadrature ladder (x1, x1.5 with unequal orders, x2)             *)
+(*   "aberrated_coarse" / "mielens_coarse", "aberrated_quad3x" /           *)
+(*        "mielens_quad3x": zero aberration under NON-default accuracy      *)
+(*        options equals the unaberrated theory under the same options      *)
+(*        (pairwise relation SameOptions, exact)                            *)
+(* Mode "scan" (LensRoutes_scan.cfg): one sphere, a sequence of requests    *)
+(* that differ in acceptance angle / theory / options, all in one           *)
+(* interpreter; every answer must be the fresh-process answer of that       *)
+(* request (no state survives between calls).                               *)
 (* Relations: every analytic route equals the reference route              *)
 (* ("mielens_off"); the ladder is Cauchy and its last rung equals the      *)
 (* reference.                                                              *)
 (***************************************************************************)
 EXTENDS Integers, Sequences, FiniteSets
 
-VARIABLES cls, route
-vars == <<cls, route>>
+CONSTANTS MaxCalls
+VARIABLES cls, route, log
+vars == <<cls, route, log>>
 
 MClasses == {"m105", "m120", "m160", "m250"}
 XClasses == {"x01", "x1", "x5", "x20", "x50"}
@@ -30,13 +39,25 @@ Analytic == {"mielens_check", "mielens_on", "mielens_off", "mielens_window", "mi
              "mielens_quad2x", "aberrated_scalar0", "aberrated_list0_1", "aberrated_list0_2",
              "aberrated_list0_3", "aberrated_list0_4"}
 Ladder == <<"lens_mie_1", "lens_mie_15", "lens_mie_2">>
-Routes == Analytic \cup {Ladder[i] : i \in 1..3}
+SameOptions == {<<"aberrated_coarse", "mielens_coarse">>, <<"aberrated_quad3x", "mielens_quad3x">>}
+Routes == Analytic \cup {Ladder[i] : i \in 1..3} \cup UNION {{p[1], p[2]} : p \in SameOptions}
 Reference == "mielens_off"
 
-Init == cls \in Classes /\ route = Reference
-Take(r) == route = Reference /\ r \in Routes /\ route' = r /\ UNCHANGED cls
+Init == cls \in Classes /\ route = Reference /\ log = <<>>
+Take(r) == route = Reference /\ r \in Routes /\ route' = r /\ UNCHANGED <<cls, log>>
 Next == \E r \in Routes : Take(r)
 Spec == Init /\ [][Next]_vars
 ClassesOnly == Init /\ [][UNCHANGED vars]_vars     \* used to dump the class catalogue alone
 ClassNeverChanges == [][cls' = cls]_vars       \* a route is a way of computing, not a different problem
+
+\* ---- scan mode: the same sphere asked again and again with other lens settings --------------
+ScanCatalogue == 1..6      \* concretised by the harness: two acceptance angles x {MieLens, zero-aberration
+                           \* AberratedMieLens}, a refined quadrature, the numerical wrapper
+ScanInit == cls \in {c \in Classes : c.m = "m160" /\ c.x = "x5" /\ c.kz = "kz_60" /\ c.angle = "a06"
+                                      /\ c.pol = 2 /\ c.rho = "inside"} /\ route = Reference /\ log = <<>>
+Ask(c) == /\ Len(log) < MaxCalls /\ log' = Append(log, c) /\ UNCHANGED <<cls, route>>
+ScanSpec == ScanInit /\ [][\E c \in ScanCatalogue : Ask(c)]_vars
+\* the answer to the last request is a function of that request alone (the harness compares with the
+\* fresh-process answer); the model states it as: the log only grows, earlier answers are never revised
+LogOnlyGrows == [][Len(log') = Len(log) + 1 /\ SubSeq(log', 1, Len(log)) = log]_vars
 =============================================================================
